@@ -190,8 +190,65 @@ def big_tree_part(check):
 _run_small = run
 
 
+def odd_types_part(check):
+    """a catalogue of unusual but valid type expressions (containers as map keys, zero-length arrays, unit inside containers,
+    deep wrapper nests) at every position (field, tuple payload, struct-variant field, alias) through all six back ends
+    in-process: whatever a back end makes of them, it must be output or an error, never a panic - and the same as the model"""
+    u8, st, unit = t_path("u8"), t_path("String"), ("tuple", [])
+    vec = lambda t: t_path("Vec", [t])
+    opt = lambda t: t_path("Option", [t])
+    hm = lambda k, v: t_path("HashMap", [k, v])
+    box = lambda t: t_path("Box", [t])
+    CATALOGUE = [hm(vec(st), u8), hm(hm(st, u8), u8), hm(opt(st), u8), hm(unit, unit), hm(("array", u8, 2), st), ("array", u8, 0),
+                 vec(("array", st, 0)), opt(opt(opt(u8))), box(box(vec(box(st)))), vec(unit), ("array", unit, 3),
+                 ("ref", ("slice", ("ref", ("slice", u8), False)), False), opt(vec(opt(hm(st, vec(unit))))), hm(st, hm(st, hm(st, st))),
+                 t_path("HashMap", [st, u8, t_path("RandomState")]), vec(t_path("Missing", [u8])), ("array", ("array", u8, 1), 1)]
+    ts = [m_path("typeshare")]
+    tagged = m_list("serde", [m_nv("tag", lit_s("t")), m_nv("content", lit_s("c"))])
+    g = Gen(check.rng)
+    mreqs, rreqs, meta = [], [], []
+    for k, ty in enumerate(CATALOGUE):
+        for pos in ("field", "payload", "variant-field", "alias"):
+            if pos == "field":
+                item = {"kind": "struct", "attrs": list(ts), "ident": "S%d" % k, "generics": [], "fields": ("named", [field([], "f", ty)])}
+            elif pos == "payload":
+                item = {"kind": "enum", "attrs": list(ts) + [tagged], "ident": "E%d" % k, "generics": [],
+                        "variants": [{"attrs": [], "ident": "V", "fields": ("unnamed", [field([], None, ty)])}, {"attrs": [], "ident": "U", "fields": ("unit",)}]}
+            elif pos == "variant-field":
+                item = {"kind": "enum", "attrs": list(ts) + [tagged], "ident": "F%d" % k, "generics": [],
+                        "variants": [{"attrs": [], "ident": "V", "fields": ("named", [field([], "f", ty)])}]}
+            else:
+                item = {"kind": "alias", "attrs": list(ts), "ident": "A%d" % k, "generics": [], "ty": ty}
+            f = {"attrs": [], "items": [item]}
+            for lang in LANGS:
+                cfg = {"package": "proto" if lang == "go" else "com.example", "type_mappings": {}}
+                m, r, texts = l2.requests(lang, cfg, [{"crate": "", "file_name": "o", "path": "src/lib.rs", "file": f}], g)
+                mreqs.append(m)
+                rreqs.append(r)
+                meta.append((lang, pos, texts[0]))
+    mans = [l2.norm(a) for a in model(mreqs)]
+    rans = [l2.norm(a) for a in runner(rreqs)]
+    mismatch = None
+    for (lang, pos, text), ma, ra in zip(meta, mans, rans):
+        check.saw(("odd-type", lang, pos, text), nontrivial=True)
+        check.count("odd-types-%s" % ("ok" if "ok" in ra else "panic" if "panic" in ra else "error"))
+        if "panic" in ra:
+            check.violation("%s panics on a valid type expression at position %s: %s" % (lang, pos, ra["panic"]),
+                            case={"lang": lang, "position": pos, "source": text}, impl=ra, model=ma, failing_input=True)
+            return
+        if ma != ra and mismatch is None:
+            mismatch = (lang, pos, text, ma, ra)
+    if mismatch:
+        lang, pos, text, ma, ra = mismatch
+        check.violation("%s generation differs from the model on an unusual type expression (%s)" % (lang, pos),
+                        case={"lang": lang, "position": pos, "source": text}, impl=ra, model=ma, failing_input=False,
+                        broken="correspondence L2 format_type on unusual types (theorems TsV.C07_Backends.*)")
+
+
 def run(check):
     _run_small(check)
+    if not check.violations:
+        odd_types_part(check)
     if not check.violations:
         big_tree_part(check)
     check.rule += ("; trees of 130-257 (thorough 513) annotated files in 7 crates - more results than the walker's bounded channel "
